@@ -1,6 +1,7 @@
 import OdakProofs.Lemmas.Kernels
 import OdakProofs.Lemmas.PropagateLemmas
 import OdakProofs.Lemmas.NumpyPipelines
+import OdakProofs.Lemmas.GenPipelines
 
 /-! # C03 – propagation is linear and shift-equivariant (superposition principle) -/
 namespace Odak
@@ -78,5 +79,84 @@ theorem C03_np_tf_shift_equivariant {n m : Nat} (s t : Nat) (u : CGrid ℝ n m) 
 theorem C03_np_ir_shift_equivariant {n m : Nat} (s t : Nat) (u : CGrid ℝ n m) (dx lam k z : ℝ) :
     npIR (CGrid.roll s t u) dx lam k z = CGrid.roll s t (npIR u dx lam k z) :=
   npIR_roll s t u dx lam k z
+
+end Odak
+
+/-! ## The same statements for the PIPELINES regenerated from the Python source on this run
+  (`OdakModel/Generated/Pipelines.lean`, tied to the hand model by `OdakProofs/Lemmas/GenPipelines.lean`). -/
+namespace Odak
+open Gen
+
+/-- the regenerated `custom` is linear in the field for ANY kernel and aperture, and maps zero to zero -/
+theorem C03_gen_custom_linear {n m : Nat} (u v H A : CGrid ℝ n m) (a b : Cx ℝ) :
+    customT (CGrid.add (CGrid.smul a u) (CGrid.smul b v)) H A
+      = CGrid.add (CGrid.smul a (customT u H A)) (CGrid.smul b (customT v H A)) ∧
+    customT CGrid.zero H A = CGrid.zero := by
+  simp only [gen_customT_eq]; exact C03_custom_linear u v H A a b
+
+/-- every regenerated torch method (any aperture `A`, no padding): kernel helper -> `custom`, hence linear -/
+theorem C03_gen_torch_methods_linear {n m : Nat} (u v A : CGrid ℝ n m) (a b : Cx ℝ) (dx lam k z : ℝ) (s0 s1 s2 s3 : Nat) :
+    angularSpectrumT (CGrid.add (CGrid.smul a u) (CGrid.smul b v)) A dx lam z
+      = CGrid.add (CGrid.smul a (angularSpectrumT u A dx lam z)) (CGrid.smul b (angularSpectrumT v A dx lam z)) ∧
+    bandLimitedAngularSpectrumT (CGrid.add (CGrid.smul a u) (CGrid.smul b v)) A dx lam z
+      = CGrid.add (CGrid.smul a (bandLimitedAngularSpectrumT u A dx lam z)) (CGrid.smul b (bandLimitedAngularSpectrumT v A dx lam z)) ∧
+    transferFunctionFresnelT (CGrid.add (CGrid.smul a u) (CGrid.smul b v)) A dx lam z
+      = CGrid.add (CGrid.smul a (transferFunctionFresnelT u A dx lam z)) (CGrid.smul b (transferFunctionFresnelT v A dx lam z)) ∧
+    impulseResponseFresnelT (CGrid.add (CGrid.smul a u) (CGrid.smul b v)) A dx lam z s0 s1 s2 s3
+      = CGrid.add (CGrid.smul a (impulseResponseFresnelT u A dx lam z s0 s1 s2 s3))
+          (CGrid.smul b (impulseResponseFresnelT v A dx lam z s0 s1 s2 s3)) ∧
+    incoherentAngularSpectrumT (CGrid.add (CGrid.smul a u) (CGrid.smul b v)) A dx lam z
+      = CGrid.add (CGrid.smul a (incoherentAngularSpectrumT u A dx lam z)) (CGrid.smul b (incoherentAngularSpectrumT v A dx lam z)) ∧
+    fraunhoferT (CGrid.add (CGrid.smul a u) (CGrid.smul b v)) dx lam k z
+      = CGrid.add (CGrid.smul a (fraunhoferT u dx lam k z)) (CGrid.smul b (fraunhoferT v dx lam k z)) := by
+  simp only [gen_angularSpectrumT_eq, gen_bandLimitedAngularSpectrumT_eq, gen_transferFunctionFresnelT_eq,
+    gen_impulseResponseFresnelT_eq, gen_incoherentAngularSpectrumT_eq, gen_fraunhoferT_eq]
+  exact ⟨(C03_custom_linear u v _ A a b).1, (C03_custom_linear u v _ A a b).1, (C03_custom_linear u v _ A a b).1,
+    (C03_custom_linear u v _ A a b).1, (C03_custom_linear u v _ A a b).1, (C03_np_pipelines_linear u v a b dx lam k z).2.2.1⟩
+
+/-- the regenerated NumPy pipelines are linear -/
+theorem C03_gen_np_methods_linear {n m : Nat} (u v : CGrid ℝ n m) (a b : Cx ℝ) (dx lam k z : ℝ) :
+    angularSpectrumN (CGrid.add (CGrid.smul a u) (CGrid.smul b v)) dx lam k z
+      = CGrid.add (CGrid.smul a (angularSpectrumN u dx lam k z)) (CGrid.smul b (angularSpectrumN v dx lam k z)) ∧
+    bandLimitedAngularSpectrumN (CGrid.add (CGrid.smul a u) (CGrid.smul b v)) dx lam k z
+      = CGrid.add (CGrid.smul a (bandLimitedAngularSpectrumN u dx lam k z)) (CGrid.smul b (bandLimitedAngularSpectrumN v dx lam k z)) ∧
+    transferFunctionFresnelN (CGrid.add (CGrid.smul a u) (CGrid.smul b v)) dx lam k z
+      = CGrid.add (CGrid.smul a (transferFunctionFresnelN u dx lam k z)) (CGrid.smul b (transferFunctionFresnelN v dx lam k z)) ∧
+    impulseResponseFresnelN (CGrid.add (CGrid.smul a u) (CGrid.smul b v)) dx lam k z
+      = CGrid.add (CGrid.smul a (impulseResponseFresnelN u dx lam k z)) (CGrid.smul b (impulseResponseFresnelN v dx lam k z)) := by
+  simp only [gen_angularSpectrumN_eq, gen_bandLimitedAngularSpectrumN_eq, gen_transferFunctionFresnelN_eq,
+    gen_impulseResponseFresnelN_eq]
+  exact ⟨(C03_methods_linear u v a b dx lam k z 0 0 0 0).2.2.2.2.1, (C03_methods_linear u v a b dx lam k z 0 0 0 0).2.2.2.2.2,
+    (C03_np_pipelines_linear u v a b dx lam k z).1, (C03_np_pipelines_linear u v a b dx lam k z).2.1⟩
+
+/-- shift-equivariance of the regenerated pipelines without Fourier-domain padding: `custom` (any kernel, any aperture), hence
+    every torch kernel method, and the four NumPy methods -/
+theorem C03_gen_shift_equivariant {n m : Nat} (s t : Nat) (u H A : CGrid ℝ n m) (dx lam k z : ℝ) :
+    customT (CGrid.roll s t u) H A = CGrid.roll s t (customT u H A) ∧
+    angularSpectrumT (CGrid.roll s t u) A dx lam z = CGrid.roll s t (angularSpectrumT u A dx lam z) ∧
+    bandLimitedAngularSpectrumT (CGrid.roll s t u) A dx lam z = CGrid.roll s t (bandLimitedAngularSpectrumT u A dx lam z) ∧
+    transferFunctionFresnelT (CGrid.roll s t u) A dx lam z = CGrid.roll s t (transferFunctionFresnelT u A dx lam z) ∧
+    angularSpectrumN (CGrid.roll s t u) dx lam k z = CGrid.roll s t (angularSpectrumN u dx lam k z) ∧
+    bandLimitedAngularSpectrumN (CGrid.roll s t u) dx lam k z = CGrid.roll s t (bandLimitedAngularSpectrumN u dx lam k z) ∧
+    transferFunctionFresnelN (CGrid.roll s t u) dx lam k z = CGrid.roll s t (transferFunctionFresnelN u dx lam k z) ∧
+    impulseResponseFresnelN (CGrid.roll s t u) dx lam k z = CGrid.roll s t (impulseResponseFresnelN u dx lam k z) := by
+  refine ⟨custom_roll s t u H A, ?_, ?_, ?_, ?_, ?_, ?_, ?_⟩
+  · rw [gen_angularSpectrumT_eq, gen_angularSpectrumT_eq]; exact custom_roll s t u _ A
+  · rw [gen_bandLimitedAngularSpectrumT_eq, gen_bandLimitedAngularSpectrumT_eq]; exact custom_roll s t u _ A
+  · rw [gen_transferFunctionFresnelT_eq, gen_transferFunctionFresnelT_eq]; exact custom_roll s t u _ A
+  · rw [gen_angularSpectrumN_eq, gen_angularSpectrumN_eq]; exact customNoAp_roll s t u _
+  · rw [gen_bandLimitedAngularSpectrumN_eq, gen_bandLimitedAngularSpectrumN_eq]; exact customNoAp_roll s t u _
+  · rw [gen_transferFunctionFresnelN_eq, gen_transferFunctionFresnelN_eq]; exact C03_np_tf_shift_equivariant s t u dx lam k z
+  · rw [gen_impulseResponseFresnelN_eq, gen_impulseResponseFresnelN_eq]; exact C03_np_ir_shift_equivariant s t u dx lam k z
+
+/-- a STACK `[k × n × m]` handed to the regenerated `custom` is propagated linearly as well: field by field
+    (`gen_customStackT_eq`: the batch roll of the dim-less `fftshift` is undone by the dim-less `ifftshift`, for every `k`) -/
+theorem C03_gen_stack_linear {k n m : Nat} (us vs : CStack ℝ k n m) (H A : CGrid ℝ n m) (a b : Cx ℝ) (i : Fin k) :
+    (customStackT (Vector.ofFn fun j => CGrid.add (CGrid.smul a us[j]) (CGrid.smul b vs[j])) H A)[i]
+      = CGrid.add (CGrid.smul a (customStackT us H A)[i]) (CGrid.smul b (customStackT vs H A)[i]) := by
+  rw [gen_customStackT_eq, gen_customStackT_eq, gen_customStackT_eq]
+  show (Vector.map _ _)[i.val] = CGrid.add (CGrid.smul a (Vector.map _ _)[i.val]) (CGrid.smul b (Vector.map _ _)[i.val])
+  rw [Vector.getElem_map, Vector.getElem_map, Vector.getElem_map, Vector.getElem_ofFn]
+  exact (C03_custom_linear _ _ H A a b).1
 
 end Odak
